@@ -81,12 +81,17 @@ func (s *c03Stack) do(r HReq) []bool {
 		e := Ent{Key: r.Keys[0], S: r.S, T: r.T, Root: r.Root}
 		_, sig := s.rig.Signer.SignBeaconAttestation(s.rig.Ctx, c03Creds, "Wallet 1/"+s.accts[r.Keys[0]].Name(), nil, AttData(e))
 		return []bool{len(sig) > 0}
-	case "atts":
+	case "atts", "atts-badfirst":
 		names := make([]string, len(r.Keys))
 		data := make([]*rules.SignBeaconAttestationData, len(r.Keys))
 		for i, k := range r.Keys {
 			names[i] = "Wallet 1/" + s.accts[k].Name()
 			data[i] = AttData(Ent{Key: k, S: r.S, T: r.T, Root: r.Root})
+			if i == 0 && r.Kind == "atts-badfirst" {
+				// The first entry is not a valid attestation (its source lies beyond its target) and is refused; the
+				// entries after it are ordinary.
+				data[i] = AttData(Ent{Key: k, S: r.T + 2, T: r.T, Root: r.Root})
+			}
 		}
 		_, sigs := s.rig.Signer.SignBeaconAttestations(s.rig.Ctx, c03Creds, names, nil, data)
 		out := make([]bool, len(r.Keys))
@@ -368,6 +373,7 @@ func c03Histories(tier string) [][]HReq {
 		{Kind: "prop", Keys: []int{0}, Slot: 5, Root: 1},
 		{Kind: "prop", Keys: []int{1}, Slot: 7, Root: 1},
 		{Kind: "prop", Keys: []int{0}, Slot: 5, Root: 2}, // conflicts
+		{Kind: "atts-badfirst", Keys: []int{0, 1}, S: 2, T: 5, Root: 1},
 	}
 	var hs [][]HReq
 	for _, a := range menu {
@@ -469,7 +475,7 @@ func C03(tier string) int {
 	run.Coverage = map[string]any{
 		"evaluations":                            stats.kills + stats.images + stats.fullRuns,
 		"distinct_nontrivial":                    stats.histories,
-		"rule":                                   "histories of 1-2 requests (all over an 8-request menu incl. conflicting ones, single/batch/proposal on 2 keys; 3 in thorough) plus fixed length-4 histories, run by a child process on the real signer stack; (1) the child is killed with SIGKILL at every hook point (store enter/exit, rules enter/exit, sign, request start/end); (2) the child runs under strace and every system-call boundary on the storage directory is a power-loss point: for each, every directory image allowed by the persistence model (metadata in order; O_DSYNC writes durable at exit and absent/complete/torn while in flight; other writes volatile until fsync and dropped as none/all/each/each suffix) is materialised; every image and every killed directory is reopened by the real code and probed with every request conflicting with a request that had reached signing: either the instance refuses to start or it refuses all of them; (3) the storage runs full (RLIMIT_FSIZE in the child: the write crossing the limit is cut short, every later write fails) from each request of the history on, at offsets over the bytes that request appends to the value log, and the same restart-and-probe oracle is applied; distinct = histories",
+		"rule":                                   "histories of 1-2 requests (all over a 9-request menu incl. conflicting ones and a batch whose first entry is refused, single/batch/proposal on 2 keys; 3 in thorough) plus fixed length-4 histories, run by a child process on the real signer stack; (1) the child is killed with SIGKILL at every hook point (store enter/exit, rules enter/exit, sign, request start/end); (2) the child runs under strace and every system-call boundary on the storage directory is a power-loss point: for each, every directory image allowed by the persistence model (metadata in order; O_DSYNC writes durable at exit and absent/complete/torn while in flight; other writes volatile until fsync and dropped as none/all/each/each suffix) is materialised; every image and every killed directory is reopened by the real code and probed with every request conflicting with a request that had reached signing: either the instance refuses to start or it refuses all of them; (3) the storage runs full (RLIMIT_FSIZE in the child: the write crossing the limit is cut short, every later write fails) from each request of the history on, at offsets over the bytes that request appends to the value log, and the same restart-and-probe oracle is applied; distinct = histories",
 		"samples":                                samples.List(),
 		"exhaustive":                             !capped,
 		"histories":                              stats.histories,
